@@ -51,7 +51,9 @@ if exe_sc is None:
 bins = [exe_sc]
 if ck.thorough():
     # a second binary with another build ID (the salt): same code, different link
-    exe2 = os.path.join(BIN, "staticcheck-c04b")
+    exe2 = os.path.join(BIN, "staticcheck-c04b.%d" % os.getpid())
+    if hasattr(ck, "tmpbins"):
+        ck.tmpbins.append(exe2)
     rc, out = sh(["go", "build", "-tags", "verif", "-ldflags=-X main.verifSaltProbe=1", "-o", exe2, "./cmd/staticcheck"], cwd=REPO, timeout=1500)
     if rc == 0:
         bins.append(exe2)
@@ -90,9 +92,9 @@ work = ck.mkscratch()
 res = os.path.join(work, "out.json")
 args = [exe, "-work", work, "-out", res, "-seed", str(ck.seed), "-bin", ",".join(bins)]
 if ck.thorough():
-    args += ["-hist", "60", "-steps", "8", "-par", "8", "-thorough"]
+    args += ["-hist", os.environ.get("VERIF_C04_HIST", "40"), "-steps", "8", "-par", "8", "-thorough"]
 else:
-    # VERIF_C04_HIST: debugging aid (mutation testing): number of random histories in the quick tier
+    # VERIF_C04_HIST: debugging aid (mutation testing): number of random histories
     args += ["-hist", os.environ.get("VERIF_C04_HIST", "5"), "-steps", "6", "-par", "8"]
 if envflip:
     args += ["-envflip", ",".join(sorted(set(envflip)))]
@@ -103,6 +105,9 @@ if rc != 0:
     bail("harness-run", "harness run failed: " + out[-500:], out)
 data = json.load(open(res))
 steps = data["Steps"]
+if any(s["WarmRC"] == -1 or (s["Compared"] and s["ColdRC"] == -1) for s in steps):
+    bail("harness-run", "the staticcheck binary could not be started in some step", json.dumps([s["WarmErr"] for s in steps if s["WarmRC"] == -1][:3]))
+crashed = [s for s in steps if s["WarmRC"] not in (0, 1)]
 probe = data.get("EnvProbe")
 
 # ---------------------------------------------------------------- 3. cases: predicate + key correspondence in coqc
@@ -216,7 +221,8 @@ ck.assume += [
     "facts of a package do not depend on whether it is analysed as initial package or as dependency (abstraction of factsOnly mode)",
     "known finding env-read:staticcheck/sa9007 is excluded from relevant_assumed",
 ]
-ck.notes += ["key fields: %s" % tables.get("KF"), "relevant dims missing from key (incl. recorded finding): %s" % tables.get("MD"),
+ck.notes += ["steps where staticcheck exited with a status other than 0/1 (same in warm and cold unless listed as violation): %d" % len(crashed),
+             "key fields: %s" % tables.get("KF"), "relevant dims missing from key (incl. recorded finding): %s" % tables.get("MD"),
              "model-level stale dims: %s" % tables.get("X"),
              "key correspondence: %d observations, %s repeated real keys, unsound pairs %s, untracked-input pairs (informational) %s"
              % (len(obs_terms), HITS, U, (E or "")[:200])]
